@@ -212,6 +212,8 @@ def classify_case(ctx, case, via, contracts, index=0):
 
     env = dict(os.environ)
     env['PYTHONPATH'] = core.REPO
+    if os.environ.get('SPOWTD_VERIF_OPTIMIZE') == '1':
+        env['PYTHONOPTIMIZE'] = '1'
     exe = [sys.executable, '-B', os.path.join(core.REPO, 'bin', 'spowtd')]
     p = subprocess.run(exe + load_argv, env=env, capture_output=True, text=True, timeout=300)
     if p.returncode != 0:
